@@ -13,6 +13,8 @@ Open Scope nat_scope.
 Section P.
 Variable p : prog.
 Notation memob := (memob p).
+Notation dead := (dead p).
+Notation GoneSame := (GoneSame p).
 Notation effb := (effb p).
 Notation WF := (WF p).
 Notation Inv := (Inv p).
@@ -38,7 +40,7 @@ Lemma any_src_spec i U : USpec i U ->
     Inv stk i s1 /\ PullRel i stk None s s1 /\
     (need = false ->
        st (getn s1 i) <> Dirty /\
-       forall x, In x l -> memob x = true -> st (getn s1 x) = Clean) /\
+       forall x, In x l -> memob x = true -> dead s1 x = false -> st (getn s1 x) = Clean) /\
     (need = true ->
        st (getn s1 i) = Dirty \/
        exists x, In x l /\ forall k, In x (tracked_of (rlog (getn s1 k))) -> since (getn s1 k) <> []).
@@ -60,8 +62,10 @@ Proof.
       { intros y Hy. apply Hl; right; auto. }
       split; auto. split; [eapply PullRel_trans; eauto|]. split.
       * intros Hf. destruct (Hn Hf) as [Hd Hall]. split; auto.
-        intros y [<-|Hy'] Hm; auto.
-        destruct (Hcl Hm) as [Hc2 _].
+        intros y [<-|Hy'] Hm Hgy; auto.
+        assert (Hgx : dead s x = false).
+        { rewrite <- (PullRel_GoneSame p _ _ _ _ _ P2' x), <- (PullRel_GoneSame p _ _ _ _ _ P1 x). exact Hgy. }
+        destruct (Hcl Hm Hgx) as [Hc2 _].
         apply (pr_stable _ _ _ _ _ _ P1 x Hm); auto.
         intros Hin. pose proof (frame_ge stk i s x I Hin). lia.
       * intros Ht. destruct (Hy Ht) as [?|(y & Hy1 & Hy2)]; auto.
@@ -72,7 +76,8 @@ Qed.
 Lemma memo_keep stk i s :
   Inv stk i s -> memob i = true -> ~ In i stk ->
   st (getn s i) <> Dirty -> cache (getn s i) <> None ->
-  (forall x v, In (x, v, true) (rlog (getn s i)) -> memob x = true -> st (getn s x) = Clean) ->
+  (forall x v, In (x, v, true) (rlog (getn s i)) -> memob x = true -> dead s x = false ->
+               st (getn s x) = Clean) ->
   let s' := updn i (fun n => set_st n Clean) s in
   Inv stk i s' /\ PullRel (S i) stk None s s' /\ subs (getn s' i) = subs (getn s i) /\
   st (getn s' i) = Clean /\ cache (getn s' i) <> None.
@@ -99,6 +104,8 @@ Proof.
   assert (Hq : forall k, qview_eq (getn s k) (getn s' k)).
   { intros k. destruct (Nat.eq_dec k i) as [->|Hk]; [rewrite Hat|rewrite Hsame by auto];
       unfold qview_eq; nsimpl; intuition. }
+  assert (Hgs : GoneSame s s').
+  { intros k. apply dead_view. destruct (Nat.eq_dec k i) as [->|Hk]; [rewrite Hat; nsimpl|rewrite Hsame by auto]; auto. }
   assert (W' : WF s').
   { apply (WF_same_edges p s s'); auto. apply nlen_updn. intros k. split; apply Hf. }
   split; [|split; [|split; [|split]]].
@@ -112,16 +119,16 @@ Proof.
         unfold GraphInvariant.needs_cur, GraphInvariant.needs_clean, GraphInvariant.will_run in *.
         rewrite Hd in *. cbn [uncached_ok needs_cur_n needs_clean_n will_run_n] in *.
         rewrite Hca, Hrl. split; [split; [intros Hc; congruence|apply R2]|]. split; [|split].
-        -- intros _. apply (Lcur_ext p s s' i (Hrl i)); [intros x v _; apply Hcur|]. apply R3; auto.
-        -- intros _ x v Hx Hmx. rewrite Hrl in Hx. apply Hclean. eapply Hsrc; eauto.
+        -- intros _. apply (Lcur_ext p s s' i (Hrl i) Hgs); [intros x v _; apply Hcur|]. apply R3; auto.
+        -- intros _ x v Hx Hmx Hg. rewrite Hrl in Hx. rewrite (Hgs x) in Hg. apply Hclean. eapply Hsrc; eauto.
         -- intros [_ Hds]. rewrite Hst, Nat.eqb_refl in Hds. discriminate.
-      * apply (Rest_ext p s s' k); [rewrite (Hsame k Hki); apply nview_eq_refl| | |apply I; auto].
+      * apply (Rest_ext p s s' k); [rewrite (Hsame k Hki); apply nview_eq_refl|exact Hgs| | |apply I; auto].
         -- intros x v _; apply Hcur.
         -- intros x v _ _ Hc. apply Hclean; auto.
     + apply (queue_transfer p s s'); auto. apply I.
     + intros k Hk.
       assert (Hki : k <> i) by (intros ->; auto).
-      apply (Frame_ext p i s s' k (Hrl k) (Hsr k)); [| | | |apply I; auto].
+      apply (Frame_ext p i s s' k (Hrl k) (Hsr k) Hgs); [| | | |apply I; auto].
       * intros _. rewrite Hst. destruct (Nat.eqb_spec k i); [congruence|auto].
       * intros _. rewrite (Hsame k Hki). auto.
       * intros x v _; apply Hcur.
@@ -216,10 +223,13 @@ Proof.
   assert (Hrli : rlog (getn s' i) = []) by (rewrite Hrl, Nat.eqb_refl; reflexivity).
   assert (Hsri : srcs (getn s' i) = []) by (rewrite Hsr, Nat.eqb_refl; reflexivity).
   assert (Hnk : forall k, In k stk -> k <> i) by (intros k Hk ->; auto).
+  assert (Hgs : GoneSame s s').
+  { intros k. apply dead_view. rewrite Hb. specialize (Hc1 k). destruct (Nat.eqb i k); nsimpl; intuition. }
   assert (W' : WF s').
   { apply (WF_same_edges p s1 s'); auto.
     - unfold s'. apply begin_run_misc.
-    - intros k. rewrite Hb. destruct (Nat.eqb i k); nsimpl; auto. }
+    - intros k. rewrite Hb. destruct (Nat.eqb i k); nsimpl; auto.
+    - intros k. apply dead_view. rewrite Hb. destruct (Nat.eqb i k); nsimpl; auto. }
   assert (Hsui : subs (getn s' i) = subs (getn s i)).
   { destruct (Hf i) as (_&_&_&->). apply unsubscribe_notin. intros Hin.
     pose proof (wf_sub_gt p s i i W Hin). lia. }
@@ -233,7 +243,7 @@ Proof.
       * rewrite Cn. apply I.
       * destruct Hcause as [?|Hs]; auto. right. destruct (Hc1 i) as (_&_&_&_&->&_). exact Hs.
     + intros k Hk. assert (Hki : k <> i) by (intros ->; apply Hk; left; auto).
-      apply (Rest_ext p s s' k (Hoth k Hki)).
+      apply (Rest_ext p s s' k (Hoth k Hki) Hgs).
       * intros x v _; apply Hcur.
       * intros x v _ _ Hc. rewrite Hst; auto.
       * apply (ib_rest _ _ _ _ _ I k); auto. intros Hin; apply Hk; right; auto.
@@ -245,7 +255,7 @@ Proof.
         split; [intros x Hx; rewrite Hsri in Hx; destruct Hx|].
         split; [auto|]. split; [auto|]. split; [intros Hm; rewrite Hst; auto|].
         intros He. destruct (Hq i) as (->&_). auto.
-      * apply (Frame_ext p i s s' k (Hrlk k (Hnk k Hk)) (Hsrk k (Hnk k Hk))); [| | | |apply (ib_frame _ _ _ _ _ I k Hk)].
+      * apply (Frame_ext p i s s' k (Hrlk k (Hnk k Hk)) (Hsrk k (Hnk k Hk)) Hgs); [| | | |apply (ib_frame _ _ _ _ _ I k Hk)].
         -- intros _. rewrite Hst; auto.
         -- intros _. destruct (Hq k) as (->&_). auto.
         -- intros x v _; apply Hcur.
@@ -358,7 +368,8 @@ Proof.
   assert (WM : WF sM).
   { apply (WF_same_edges p se sM); auto.
     - unfold sM. rewrite nlen_updn. reflexivity.
-    - intros k. destruct (HMf k) as (_&_&?&?&_). auto. }
+    - intros k. destruct (HMf k) as (_&_&?&?&_). auto.
+    - intros k. apply dead_view. destruct (HMf k) as (_&_&_&_&_&Hq&_). apply Hq. }
   assert (QM : QueueAll p sM).
   { unfold QueueAll. apply (queue_transfer p se sM); [reflexivity| |apply I]. intros e; apply HMf. }
   (* the frame of i *)
@@ -403,7 +414,8 @@ Proof.
       assert (HN := fun k => add_cause_getn i sM k). cbv zeta in HN. fold sN in HN.
       assert (HNm := add_cause_misc i sM). fold sN in HNm.
       assert (WN : WF sN).
-      { apply (WF_same_edges p sM sN); auto. apply HNm. intros k. destruct (HN k) as (_&?&_&_&?&_). auto. }
+      { apply (WF_same_edges p sM sN); auto. apply HNm. intros k. destruct (HN k) as (_&?&_&_&?&_). auto.
+        intros k. apply dead_view. apply HN. }
       assert (HNst : forall k, st (getn sN k) = st (getn sM k)) by (intros k; apply HN).
       assert (HNsubs : subs (getn sN i) = subs (getn se i)).
       { destruct (HN i) as (_&->&_). apply HMf. }
@@ -420,6 +432,7 @@ Proof.
         - exfalso. apply Hny.
           assert (Hin : In y (srcs (getn se i))) by (apply (wf_sub_src p se W y i Hx)).
           rewrite HL1 in Hin. apply in_tracked_of in Hin as (w & Hw). apply (Hfr_clean y w Hw Hy).
+          apply (wf_sub_live p se y i W Hx).
         - apply (USe y x Hy Hny Hx Hmx). }
       assert (Hroot : forall x, In x (subs (getn sN i)) -> memob x = true -> st (getn sN x) <> Clean).
       { intros x Hx Hmx. rewrite HNsubs in Hx. rewrite HNst, HMst.
@@ -516,6 +529,8 @@ Proof.
   { intros x Hx. rewrite Fcur. destruct (Nat.eqb_spec x i); [congruence|reflexivity]. }
   assert (Fclean : forall x, memob x = true -> st (getn se x) = Clean -> st (getn s' x) = Clean).
   { intros x Hmx Hc. destruct (Nat.eq_dec x i) as [->|Hx]; auto. }
+  assert (Fgs : GoneSame se s').
+  { intros k. apply dead_view. destruct (Ff k) as (_&_&_&_&_&_&_&H&_). exact H. }
   assert (W' : WF s').
   { apply (WF_same_edges p se s'); auto. intros k. destruct (Ff k) as (_&_&?&?&_). auto. }
   (* a resting node other than i that needs something needed it already *)
@@ -548,8 +563,8 @@ Proof.
         rewrite Fca, Nat.eqb_refl, Frl. split; [split; [discriminate|]|].
         { intros v0 Hv0. inversion Hv0; subst. exact Hrep. }
         split; [|split].
-        -- intros _ x w Hx. rewrite Frl in Hx. rewrite Fcurk by (eapply Hsrc_lt; eauto). eapply Hfr_cur; eauto.
-        -- intros _ x w Hx Hmx. rewrite Frl in Hx. apply Fclean; auto. eapply Hfr_clean; eauto.
+        -- intros _ x w Hx Hg. rewrite Frl in Hx. rewrite (Fgs x) in Hg. rewrite Fcurk by (eapply Hsrc_lt; eauto). eapply Hfr_cur; eauto.
+        -- intros _ x w Hx Hmx Hg. rewrite Frl in Hx. rewrite (Fgs x) in Hg. apply Fclean; auto. eapply Hfr_clean; eauto.
         -- intros [_ Hd]. congruence.
       * destruct (inv_rest _ _ _ _ I k (Hnin k Hk Hki)) as (R1 & R2 & R3 & R4 & R5).
         split; [apply (L1_ext se s' k (Frl k) (Fsr k)); exact R1|].
@@ -558,8 +573,8 @@ Proof.
           destruct R2 as [R2 R2'']. split; auto.
           intros Hc. destruct (R2 Hc) as [Hd Hr]. split; auto. apply st_le_dirty. rewrite <- Hd. apply Fle; auto. }
         split; [|split].
-        -- intros Hn x w Hx. rewrite Frl in Hx.
-           pose proof (R3 (Hnc_mono k Hki Hn) x w Hx) as Hcx.
+        -- intros Hn x w Hx Hg. rewrite Frl in Hx. rewrite (Fgs x) in Hg.
+           pose proof (R3 (Hnc_mono k Hki Hn) x w Hx Hg) as Hcx.
            destruct (Nat.eq_dec x i) as [->|Hxi]; [|rewrite Fcurk; auto].
            rewrite Fcur, Nat.eqb_refl. destruct ch eqn:Ech.
            ++ exfalso. apply (DirtyAt_not_needs_cur s' k); auto. apply (Fdirty eq_refl).
@@ -568,8 +583,8 @@ Proof.
                  unfold obs_is in Eo. destruct (obs_of c) as [o|] eqn:Eoc; [|discriminate].
                  apply Nat.eqb_eq in Eo. subst. apply Hobs; auto.
            ++ eapply eqv_trans; [apply eqv_sym; apply Fsame; auto|exact Hcx].
-        -- intros Hn x w Hx Hmx. rewrite Frl in Hx. apply Fclean; auto.
-           apply (R4 (Hncl_mono k Hki Hn) x w Hx Hmx).
+        -- intros Hn x w Hx Hmx Hg. rewrite Frl in Hx. rewrite (Fgs x) in Hg. apply Fclean; auto.
+           apply (R4 (Hncl_mono k Hki Hn) x w Hx Hmx Hg).
         -- intros Hw. rewrite Fsince.
            assert (Hcase : will_run p se k \/ (ch = true /\ In k (subs (getn se i)))).
            { unfold GraphInvariant.will_run, will_run_n, hasrun_n in *.
@@ -585,7 +600,7 @@ Proof.
               rewrite Hch, Ht. discriminate.
     + exact FQ.
     + intros k Hk. pose proof (inv_frame _ _ _ _ I k (or_intror Hk)) as Fk.
-      apply (Frame_ext p i se s' k (Frl k) (Fsr k)); [| | | |exact Fk].
+      apply (Frame_ext p i se s' k (Frl k) (Fsr k) Fgs); [| | | |exact Fk].
       * intros Hmk Hc E. apply Hc. apply st_le_clean. rewrite <- E. apply Fle; auto.
       * intros He Hd0. destruct (edirty (getn s' k)) eqn:Ed; auto.
         destruct (Forigin k (Hnk k Hk)) as [_ O2]. destruct (O2 Ed) as [?|(_ & Hin & Hsk)]; [congruence|].
